@@ -152,6 +152,7 @@ pub fn finish(mut report: Report) -> i32 {
         }
     }
     let replay_dir = PathBuf::from(VERIF_DIR).join("replays").join(report.property);
+    let _ = std::fs::remove_dir_all(&replay_dir);
     let mut exit = 0;
     for (id, (count, what)) in &known_hits {
         println!("KNOWN-FINDING: property={} {} [{}; {} cases matched input class and bug model]", report.property, what, id, count);
